@@ -263,6 +263,7 @@ impl Property for C16Prop {
             "shared-adapter" => check_shared_adapter(case, stats),
             "first-use" => check_first_use(case, stats),
             "render" => check_render(case, stats),
+            "output" => check_output(case, stats),
             "show" => check_show(case, stats),
             "shared-iterator" => check_shared_iterator(case, stats),
             _ => Verdict::Discard("unknown kind"),
@@ -404,13 +405,17 @@ fn cell_position_bodies() -> Vec<String> {
 
 /// more functions whose calls share nothing: what a call answers depends on its argument alone, also
 /// when the call before it (on this or another thread) took another arm, branch or path
-const ISOLATED_MORE: [&str; 6] = [
+const ISOLATED_MORE: [&str; 9] = [
     "f := (n: int) -> string { v := [2.5, n, 0][n % 3]; return match v { 0 => \"zero\", x: int => \"int\", x: int|float => \"number\", }; }",
     "f := (n: int) -> string { v := [2.5, n, \"s\"][n % 3]; if x: int = v { return \"int\"; } if x: int|float = v { return \"number\"; } return \"other\"; }",
     "f := (n: int) -> any { t := [(n, 1), (n, 1, 2)][n % 2]; return match t { (20, 1) => \"pair 20\", x: (int, int) => \"pair\", x: (int, int, int) => \"triple\", => \"other\", }; }",
     "f := (n: int) -> int { s := [struct{a := n}, struct{a := n, b := 1}][n % 2]; return match s { x: struct{a: int, b: int} => 2, x: struct{a: int} => 1, }; }",
     "f := (n: int) -> any { fs := [() -> mut int { return mut 0; }]~; fs(); g := fs().1; c := g(); c += n; return *c; }",
     "f := (n: int) -> any { it := [mut 1, \"a\"]~; it(); it(); c := it().1; r := if k: mut int = c { k += n; *k } else { 0 }; return r; }",
+    // strings made at run time, each measured and indexed from its end by the thread that made it
+    "f := (n: int) -> any { s := mut \"\"; bad := mut 0; k := mut 0; while *k < n + 40 { s += [\"é\", \"a\", \"€\"][(*k + n) % 3]; t := *s; if std.len(t) != *k + 1 { bad += 1; }; if std.len(t[-1]) != 1 { bad += 1; }; if t[0 - std.len(t)] != t[0] { bad += 1; }; k += 1; }; return (*bad, std.len(*s), (*s)[-2]); }",
+    "f := (n: int) -> any { ws := [\"a\", \"é€\", \"abc\", \"\", \"𝄞𝄞𝄞𝄞\"]; r := mut [int] []; k := mut 0; while *k < 60 { w := ws[(*k + n) % 5] + ws[(*k * 3 + n) % 5]; r += [std.len(w)]; k += 1; }; return *r; }",
+    "f := (n: int) -> any { r := mut [string] []; k := mut 0; while *k < 40 { w := std.convert.to_string(n * 1000 + *k) + \"é\"; r += [w[-1] + w[-2] + std.convert.to_string(std.len(w))]; k += 1; }; return *r; }",
 ];
 
 /// functions of one int whose calls share nothing: the hand-written ones, then a cell made in every position
@@ -747,6 +752,67 @@ fn check_first_use(case: &Json, stats: &mut Stats) -> Verdict {
 
 /// Threads that share nothing render their own nested values (host Debug / Display, and
 /// `std.convert.to_string` inside a running program) at the same time: each gets the text it gets alone.
+/// Threads that share nothing each print their own lines, one line per call of `std.io.print` /
+/// `std.io.print_array`: what the process writes is the lines of the sequential runs, shuffled - every
+/// line whole, each as often as its thread printed it.
+fn check_output(case: &Json, stats: &mut Stats) -> Verdict {
+    let threads = case["threads"].as_u64().unwrap_or(8) as usize;
+    let iters = case["iters"].as_u64().unwrap_or(300) as usize;
+    let programs: Vec<String> = (1..=threads)
+        .map(|t| format!("k := mut 0; while *k < {iters} {{ std.io.print_array([{t}1, {t}2, {t}3, {t}4, {t}5], \"-\"); std.io.print((\"line\", {t}, [{t}.5])); std.io.print_array([\"w{t}\", \"x{t}\"], \" \"); k += 1; }}; *k"))
+        .collect();
+    let mut expected: std::collections::BTreeMap<String, usize> = Default::default();
+    for t in 1..=threads {
+        for line in [format!("{t}1-{t}2-{t}3-{t}4-{t}5"), format!("(\"line\", {t}, [{t}.5])"), format!("w{t} x{t}")] {
+            *expected.entry(line).or_default() += iters;
+        }
+    }
+    // the shape of the lines is what one run alone prints
+    let mut capture = crate::props::c18::Capture::new();
+    run::default_budget();
+    let alone = run::run_text(&programs[0].replace(&format!("< {iters}"), "< 1"), true);
+    let first = capture.take();
+    let want_first = format!("11-12-13-14-15\n(\"line\", 1, [1.5])\nw1 x1\n");
+    if first != want_first {
+        drop(capture);
+        return fail("C16:setup", format!("one run alone printed {first:?} (outcome {}), expected {want_first:?}", alone.short()));
+    }
+    let barrier = Arc::new(Barrier::new(threads));
+    let results: Vec<Option<String>> = std::thread::scope(|scope| {
+        let handles: Vec<_> = (0..threads)
+            .map(|t| {
+                let (barrier, program) = (barrier.clone(), &programs[t]);
+                scope.spawn(move || {
+                    run::set_thread_fuel(20_000_000);
+                    barrier.wait();
+                    match run::run_text(program, true) {
+                        Outcome::Value(Variable::Int(n)) if n as usize == iters => None,
+                        o => Some(format!("thread {t}: `{program}` gave {}", o.short())),
+                    }
+                })
+            })
+            .collect();
+        handles.into_iter().map(|h| h.join().unwrap_or_else(|_| Some("worker died".into()))).collect()
+    });
+    let written = capture.take();
+    drop(capture);
+    stats.evals((threads * iters * 3) as u64);
+    stats.nontrivial(&case.to_string());
+    stats.label("output: threads printing their own lines at once");
+    if let Some(why) = results.into_iter().flatten().next() {
+        return fail("C16:output:run", why);
+    }
+    let mut got: std::collections::BTreeMap<String, usize> = Default::default();
+    for line in written.lines() {
+        *got.entry(line.to_string()).or_default() += 1;
+    }
+    if got != expected {
+        let odd: Vec<String> = got.iter().filter(|(l, n)| expected.get(*l) != Some(*n)).take(4).map(|(l, n)| format!("{l:?} x{n}")).collect();
+        return fail("C16:output:lines", format!("{threads} threads each printing {iters} x 3 lines of their own: the lines written are not the lines of the sequential runs; e.g. {odd:?}"));
+    }
+    Verdict::Pass
+}
+
 fn check_render(case: &Json, stats: &mut Stats) -> Verdict {
     let threads = case["threads"].as_u64().unwrap_or(8) as usize;
     let iters = case["iters"].as_u64().unwrap_or(2000) as usize;
@@ -1496,6 +1562,7 @@ pub fn run(session: &Session) -> i32 {
     }
     cases.push(json!({"kind": "isolated-import", "threads": 6, "reps": session.tier.of(3, 20)}));
     cases.push(json!({"kind": "render", "threads": 8, "iters": session.tier.of(2000, 20000)}));
+    cases.push(json!({"kind": "output", "threads": 8, "iters": session.tier.of(400, 4000)}));
     {
         let it = "k := mut 0; it := () -> (bool, int) { k += 1; return (*k < 4, *k); }; ";
         let bt = "k := mut 0; it := () -> (bool, bool) { k += 1; return (*k < 4, *k < 9); }; ";
